@@ -740,7 +740,7 @@ def register_stateful_execute(R, prop):
                                                     "result[-1].status.name == 'SKIP' and phase.skip_reason is not None and phase.skip_reason.name == 'NOTHING_TO_TEST')",
         "C12_interrupt_stops_the_engine_and_is_reported": "implies(ghost('last_get') == 'KeyboardInterrupt', engine.control.stop_event.flag is True and is_instance(result[-2], 'Interrupted'))",
         "C11_the_thread_is_started_once_and_always_joined": "implies(ghost('machine_error') is None, ghost('started') == 1 and ghost('joined') == 1)",
-        "C13_the_thread_runs_the_loop_with_this_engine_and_machine": "implies(ghost('machine_error') is None, ghost('thread').kwargs['engine'] is engine)",
+        "C11_the_thread_runs_the_loop_with_this_engine_and_machine": "implies(ghost('machine_error') is None, ghost('thread').kwargs['engine'] is engine)",
     }
     R.contract(
         SFL + "execute",
